@@ -11,6 +11,7 @@ driver = "drv_node"
 cxx = False
 fixed_lines = 1
 per_process = 400   # a faulting script costs a restart of its batch only
+link_extra = ("-Wl,--wrap=malloc",)   # allocation failure injection for the clone ops ('n fail <k>')
 rule = ("scripts = 'n begin', node ops, 'n end' (destroy everything, every byte must come back); "
         "stream 1 (exhaustive small scope): every forest that can be built from <=4 (quick) / <=5 (thorough) nodes by "
         "'stay root / last child of an earlier node / appended to an earlier top-level list', names from {a,b,unnamed} "
@@ -20,13 +21,15 @@ rule = ("scripts = 'n begin', node ops, 'n end' (destroy everything, every byte 
         "locate/pos), i.e. histories of length <=5 over <=5 nodes; stream 2: every ordered pair of structural ops on "
         "the 3-node states (names aab; positions 0,1,-1 quick / 0,1,2,-1,-2 thorough); stream 3: random histories (12-40 ops, up to ~60 nodes) biased to valid calls by a "
         "python mirror of the forest, with clones of trees of depth >=2, merges of lists with overlapping names, "
-        "clear/destroy of inner nodes; non-trivial = a node with a grandchild existed at some point of the history "
+        "clear/destroy of inner nodes; stream 4: allocation failure injected (malloc wrapped) at every allocation of "
+        "node/tree/list clones of 5 small structures incl. names that do not fit into the node; non-trivial = a node with a grandchild existed at some point of the history "
         "(seen in the code's own walk), counted per distinct script")
 assumptions = [
     "calls respect the GNode-style preconditions of the insert functions: the inserted node is a root without "
     "siblings and not an ancestor of the position (both drivers skip other calls as 'precond'); "
     "mpt_node_move is called with lists from different top-level structures",
-    "malloc never fails in the harness runs (the allocation-failure paths of node_clone/list_clone are not exercised)",
+    "malloc fails only where the scripts inject it ('n fail k' before a clone op); the model decides refusal by the "
+    "number of allocations of the clone (value, node, name longer than the node's inline space)",
     "node names are unnamed or short UTF-8 texts without NUL (identifier comparison = equality of names); "
     "values are short texts stored through mpt_meta_new",
     "release-exactly-once of the compiled code is observed through AddressSanitizer (double free/use after free = fault) "
@@ -428,8 +431,28 @@ def _random_history(r, length):
     return lines
 
 
+def _stream_fail(tier):
+    """allocation failure at every malloc of the clone ops (`n fail k`): refused, nothing changed, nothing leaked"""
+    out = []
+    long = "L" * 230      # does not fit into the node: the name is allocated separately
+    builds = [
+        (["n new a v0"], 1),
+        (["n new %s -" % long], 1),
+        (["n new %s v0" % long, "n new b v1", "n insert 0 0 1"], 2),
+        (["n new a v0", "n new %s v1" % long, "n new b -", "n new c v3", "n insert 0 0 1", "n insert 1 0 2", "n insert 0 0 3"], 4),
+        (["n new a -", "n new b v1", "n new %s -" % long, "n add 0 0 1", "n insert 1 0 2"], 3),
+    ]
+    for bi, (pre, n) in enumerate(builds):
+        for x in range(n):
+            for mode in ("", " tree", " list"):
+                for k in range(1, 13 if tier == "quick" else 20):
+                    out.append(("fail:%d/%d%s/%d" % (bi, x, mode, k),
+                                ["n begin"] + pre + ["n fail %d" % k, "n clone %d%s" % (x, mode), "n clone %d tree" % x, "n end"]))
+    return out
+
+
 def scripts(tier, seed, scale=1):
-    out = _stream1(tier) + _stream2(tier)
+    out = _stream1(tier) + _stream2(tier) + _stream_fail(tier)
     nrand = (400 if tier == "quick" else 6000) * scale
     r = gen.rng(id, tier, seed, "random")
     for k in range(nrand):
